@@ -95,6 +95,7 @@ class Process:
         self.__changeset = changeset
         self.__clear = clear
         self.__failed = False
+        self.__gitting = False  # did this submission move the FSM to gitting
         self.__msg = {
             'alert_status': 'danger',
             'alert_message': 'unspecified',
@@ -108,7 +109,7 @@ class Process:
 
     def failure(self, _fail):
         if self.__request is not None:
-            if dawgie.context.fsm.state == 'gitting':
+            if self.__gitting and dawgie.context.fsm.state == 'gitting':
                 dawgie.context.fsm.running_trigger()
             else:
                 log.debug(
@@ -173,6 +174,7 @@ class Process:
 
         # Go To: gitting state
         dawgie.context.fsm.gitting_trigger()
+        self.__gitting = True
         return None
 
     def step_2(self, _result):
